@@ -112,3 +112,68 @@ def VALID_NAME(name):
         uf = speclib.CTX.engine.uf("ghost!valid-name", z3.StringSort(), z3.BoolSort())
         return uf(Str.unwrap(name))
     return VALID_NAME_RULE(name)
+
+
+# ------------------------------------------------------------------------------------------------ parts of a full name
+# One definition of the name accessors as functions of the *full name* (split at '.'), shared by
+#   specs/c05.py  (CompositeType.name_components / short_name / root_namespace / full_namespace - bodies verified),
+#   specs/c15.py  (DSDLDefinition.name_components / short_name / root_namespace / full_namespace - bodies verified),
+#   specs/c09.py  (interface contracts of the abstract DSDLFile accessors; "a name without dots is taken relative to the
+#                  referring definition's own namespace" is stated over NAMESPACE_OF).
+def NAME_PARTS(name):
+    """the components of a full name separated by '.'  (the library model of str.split on one character)"""
+    if smt():
+        from pyvc import speclib
+
+        if isinstance(name, str):
+            return name.split(".")
+        return speclib.CTX.engine.lib.split_seq(speclib.CTX, name, ".")
+    return name.split(".")
+
+
+def _at(seq, i):
+    from pyvc.speclib import AT
+
+    return AT(seq, i)
+
+
+def _len(seq):
+    from pyvc.speclib import LEN
+
+    return LEN(seq)
+
+
+def ROOT_NAMESPACE_OF(name):
+    """the root namespace: the first component of the full name"""
+    return _at(NAME_PARTS(name), 0) if smt() else name.split(".")[0]
+
+
+def SHORT_NAME_OF(name):
+    """the short name: the last component of the full name"""
+    if smt():
+        c = NAME_PARTS(name)
+        return _at(c, _len(c) - 1)
+    return name.split(".")[-1]
+
+
+def IS_NAMESPACE_OF(ns, name):
+    """`ns` is the full namespace of `name`: its components are all but the last component of the name (for a name with at
+    least two components) - the relation that the bodies of the `full_namespace` accessors are proved to establish"""
+    if smt():
+        from pyvc.speclib import AND, IMPLIES, FORALL_IDX
+
+        c, r = NAME_PARTS(name), NAME_PARTS(ns)
+        return IMPLIES(_len(c) >= 2, lambda: AND(_len(r) == _len(c) - 1, FORALL_IDX(r, lambda i, x: x == _at(c, i))))
+    parts = name.split(".")
+    return len(parts) < 2 or ns.split(".") == parts[:-1]
+
+
+def NAMESPACE_OF(name):
+    """the full namespace as a function of the full name (a ghost name for "the string whose components are all but the last
+    component of `name`": IS_NAMESPACE_OF(NAMESPACE_OF(n), n) is its defining property, supplied where the value is used)"""
+    if smt():
+        from pyvc import speclib
+        from pyvc.values import Str
+
+        return speclib.CTX.engine.uf("ghost!namespace-of", z3.StringSort(), z3.StringSort())(Str.unwrap(name))
+    return ".".join(name.split(".")[:-1])
